@@ -748,6 +748,10 @@ func (e *Engine) bindChecked(st *State, x ssa.Value, v Lin) bool {
 		if cg.ok() {
 			st.addCong(w, cg)
 		}
+		if e.WrapLCong {
+			// w ≡ sv (mod 2^width): lets a later bound on sv recover w = sv
+			st.AddLCong(Var(w).Sub(sv), r.Hi-r.Lo+1)
+		}
 		st.Bind(a, Var(w))
 		return false
 	}
